@@ -284,6 +284,8 @@ def report(prop, args, seed, meta, results, static_results, bounded_results, wal
             "agreement_runs": sum(r["agreement"]["runs"] for r in results),
             "agreement_failures": len(agreement_failed),
             "nonzero_assumptions": sum(r["nonzero_assumptions"] for r in results),
+            "infeasible_paths_dropped": sum(r.get("infeasible_paths_dropped", 0) for r in results),
+            "reachability_unknown": sum(r.get("reach_unknown", 0) for r in results),
             "rebound_globals": sorted({x for r in results for x in r["rebound"]}),
             "extraction_drops": drops,
             "bounded_standins": {"checks": len(bounded_results), "failed": len(bounded_failed), "note": "bounded run-time contract evaluations; never counted as proved"},
